@@ -2,7 +2,7 @@
 
 Channels (see CONVENTIONS.md for the plugin interface):
   w   lib/dispatchcloud/worker     real worker/Pool/remoteRunner functions in a (state, timer) configuration
-                                   against the response model                    (ops tk sb pr sy kl uk sc o1)
+                                   against the response model                    (ops tk sb pr sy kl uk sc o1 cr)
   s   lib/dispatchcloud/scheduler  real sync() / fixStaleLocks() against stubs    (ops sw fl)
   e2e lib/dispatchcloud            real dispatcher against the stub cloud with a randomized fault schedule,
                                    a restart, and a wall-clock deadline           (op  e2e)
@@ -160,6 +160,14 @@ def _gen_sc(rng, n):
     return out
 
 
+def _gen_cr(rng, tier):
+    """Pool.Create calls run to completion with every cloud answer, quota / rate-limit back-off expiry in between"""
+    out = ["cr " + "".join(t) for k in (1, 2, 3) for t in itertools.product("oqrext", repeat=k)]
+    for _ in range(2000 if tier == "thorough" else 150):
+        out.append("cr " + "".join(rng.choice("ooqqreextx") for _ in range(rng.randint(4, 10))))
+    return out
+
+
 def _gen_o1(rng, n):
     """start / probe / start-completion interleavings on one worker (runner objects; finding F15a)"""
     out = []
@@ -300,6 +308,7 @@ def generate(rng, tier):
     cases += _gen_uk()
     cases += _gen_sc(rng, 5000 if big else 400)
     cases += _gen_o1(rng, 4000 if big else 300)
+    cases += _gen_cr(rng, tier)
     cases += _gen_sw(rng, 10000 if big else 800)
     cases += _gen_fl(rng, 3000 if big else 240)
     # malformed stream
@@ -559,6 +568,22 @@ def _oracle_fl(f, impl):
     return None
 
 
+def _oracle_cr(f, impl):
+    steps = impl.split(",")
+    if len(steps) != len(f[1]) or not all(re.fullmatch(r"c\d+u\d+q[01]w\d+a[01]", t) for t in steps):
+        return "driver could not observe the case: " + impl[:200]
+    for ch, t in zip(f[1], steps):
+        m = re.fullmatch(r"c(\d+)u(\d+)q([01])w(\d+)a([01])", t)
+        c, u, q, w, a = (int(x) for x in m.groups())
+        if c != 0:
+            return f"a Create call that has returned (answer '{ch}') is still counted as pending (len(creating)={c})"
+        if u != w:
+            return f"Unallocated() reports {u} workers on their way but only {w} exist or are being created"
+        if ch == "q" and a == 1 and q != 1:
+            return "a quota error did not switch Create off (AtQuota() is false)"
+    return None
+
+
 def _oracle_o1(f, impl):
     if impl.startswith("panic"):
         return "the dispatcher process panics while probing a worker: " + impl[:120]
@@ -596,7 +621,7 @@ def oracle(case, impl):
     if impl == "bad-op":
         return None
     try:
-        fn = {"o1": _oracle_o1, "tk": _oracle_tk, "sb": _oracle_sb, "pr": _oracle_pr, "sy": _oracle_sy, "kl": _oracle_kl,
+        fn = {"cr": _oracle_cr, "o1": _oracle_o1, "tk": _oracle_tk, "sb": _oracle_sb, "pr": _oracle_pr, "sy": _oracle_sy, "kl": _oracle_kl,
               "uk": _oracle_uk, "sc": _oracle_sc, "sw": _oracle_sw, "fl": _oracle_fl, "e2e": _oracle_e2e}.get(f[0])
         return fn(f, impl) if fn else None
     except (ValueError, IndexError, KeyError) as e:
@@ -643,6 +668,8 @@ def nontrivial_key(case, impl):
         return case if impl != "w0" else None
     if f[0] == "o1":
         return case if "st" in case and "pa" in case else None
+    if f[0] == "cr":
+        return case if "a1" in impl else None
     if f[0] == "sw":
         return case if not impl.startswith("-;-;wake=0") else None
     if f[0] == "fl":
@@ -707,6 +734,8 @@ def neighbours(case, rng):
         out += _gen_fl(rng, 6)
     elif f[0] == "sc":
         out += _gen_sc(rng, 6)
+    elif f[0] == "cr":
+        out += ["cr " + "".join(rng.choice("oqrext") for _ in range(rng.randint(1, 6))) for _ in range(6)]
     else:
         out.append(case)
     return out
